@@ -14,7 +14,7 @@ OPNAME = {
     19: "seq_read", 20: "seq_write", 21: "seq_read_vectored", 22: "seq_write_vectored",
     23: "pipe", 24: "pipe_write", 25: "pipe_read", 26: "pipe_read_vectored",
     27: "pipe_write_vectored", 28: "pipe_close_sender", 29: "pipe_close_receiver",
-    30: "read_at_4GiB_capacity", 31: "fs_write", 32: "fs_read",
+    30: "read_at_4GiB_capacity", 31: "fs_write", 32: "fs_read", 33: "open_mode_custom",
 }
 CATEGORY = {}
 for _t in (1, 2, 3, 4, 7, 8, 9, 31, 32):
@@ -32,6 +32,7 @@ for _t in (23, 24, 25, 28, 29):
 for _t in (26, 27):
     CATEGORY[_t] = "pipevec"
 CATEGORY[30] = "bigcap"
+CATEGORY[33] = "openopts"
 
 
 # ---------------------------------------------------------------------------
@@ -124,6 +125,8 @@ def decode_ops(case):
             d = dict(slot=c.take(), off=c.take(), k=c.take())
         elif t == 31:
             d = dict(path=c.path(), data=c.take_n(c.take()))
+        elif t == 33:
+            d = dict(slot=c.take(), path=c.path(), bits=c.take(), mode=c.take(), custom=c.take())
         else:
             raise KeyError(t)
         ops.append((t, d))
@@ -478,11 +481,118 @@ def one_case(rng, adversarial):
     return [g.n] + g.out
 
 
+O_APPEND, O_EXCL, O_NOFOLLOW, O_DIRECTORY, O_TMPFILE = 1024, 128, 131072, 65536, 4259840
+MODES = [0o600, 0o644, 0o000, 0o755, 0o666, 0o444, 0o640, 0o777, 0o200, 0o4755 & 0o777]
+CUSTOMS = [0, 0, O_TMPFILE, O_TMPFILE, O_NOFOLLOW, O_DIRECTORY, O_EXCL, O_APPEND, O_TMPFILE | O_EXCL,
+           O_NOFOLLOW | O_DIRECTORY, 4194304]
+
+
+def special_tree(rng):
+    """a tree with one of each kind: returns (ops, n_ops, names) with names =
+    dict(dir, file, link_file, link_dir, dangling, missing) -> component"""
+    perm = list(range(NNAMES))
+    rng.shuffle(perm)
+    nm = dict(zip(["dir", "file", "link_file", "link_dir", "dangling", "missing"], perm))
+    d = [(20 + i) % 127 + 1 for i in range(rng.choice([0, 3, 9]))]
+    ops = [11] + enc_path((nm["dir"],))
+    ops += [31] + enc_path((nm["file"],)) + [len(d)] + d
+    ops += [17] + enc_path((nm["file"],)) + enc_path((nm["link_file"],))
+    ops += [17] + enc_path((nm["dir"],)) + enc_path((nm["link_dir"],))
+    ops += [17] + enc_path((nm["missing"],)) + enc_path((nm["dangling"],))
+    n = 5
+    if rng.random() < 0.5:
+        # something inside the directory, reachable through the link as well
+        ops += [31] + enc_path((nm["dir"], nm["file"])) + [2, 7, 8]
+        n += 1
+    return ops, n, nm
+
+
+def special_path(rng, nm):
+    kinds = ["dir", "file", "link_file", "link_dir", "dangling", "missing"]
+    first = nm[rng.choice(kinds)]
+    x = rng.random()
+    if x < 0.55:
+        return (first,)
+    second = nm[rng.choice(kinds)]
+    if x < 0.9:
+        return (first, second)
+    return (first, second, nm[rng.choice(kinds)])
+
+
+def open_options_case(rng):
+    """class C08-a: OpenOptions incl. mode and custom flags on existing / missing /
+    symlink / directory paths"""
+    ops, n, nm = special_tree(rng)
+    for _ in range(rng.choice([4, 6, 8, 10])):
+        slot = rng.randrange(NSLOTS)
+        if rng.random() < 0.75:
+            bits = rng.choice([1, 2, 3, 3, 18, 19, 19, 27, 34, 35, 51, 11, 10, 6, 7, 23])
+        else:
+            bits = rng.randrange(64)
+        custom = rng.choice(CUSTOMS)
+        if custom & 4194304 and rng.random() < 0.7:
+            bits = rng.choice([2, 3, 3, 6, 10, 11])       # write access, no create: the valid O_TMPFILE use
+        p = special_path(rng, nm)
+        if custom & 4194304 and rng.random() < 0.6:
+            p = (nm[rng.choice(["dir", "link_dir", "dir", "file"])],)
+        ops += [33, slot] + enc_path(p) + [bits, rng.choice(MODES), custom]
+        n += 1
+        x = rng.random()
+        if x < 0.35:
+            ops += [9, slot]
+            n += 1
+        elif x < 0.55:
+            ops += [4, slot, rng.choice([0, 2]), 0, 0, 0, 0, 2, 65, 66]
+            n += 1
+        elif x < 0.7:
+            ops += [10] + enc_path(p) + [rng.randrange(2)]
+            n += 1
+        elif x < 0.8:
+            ops += [3, slot, 0, 0, 0, 6, 0, 0]
+            n += 1
+    return [n] + ops
+
+
+def dir_utils_case(rng):
+    """class C08-b: directory utilities where components or the final component
+    already exist as a directory, a symlink to a directory / to a file, a dangling
+    symlink or a regular file"""
+    ops, n, nm = special_tree(rng)
+    for _ in range(rng.choice([4, 6, 8, 12])):
+        x = rng.random()
+        p = special_path(rng, nm)
+        if x < 0.40:
+            ops += [12] + enc_path(p)
+        elif x < 0.50:
+            ops += [11] + enc_path(p)
+        elif x < 0.57:
+            ops += [14] + enc_path(p)
+        elif x < 0.64:
+            ops += [13] + enc_path(p)
+        elif x < 0.74:
+            ops += [15] + enc_path(p) + enc_path(special_path(rng, nm))
+        elif x < 0.80:
+            ops += [16] + enc_path(p) + enc_path(special_path(rng, nm))
+        elif x < 0.86:
+            ops += [17] + enc_path(special_path(rng, nm)) + enc_path(p)
+        elif x < 0.96:
+            ops += [10] + enc_path(p) + [rng.randrange(2)]
+        else:
+            ops += [32] + enc_path(p)
+        n += 1
+    return [n] + ops
+
+
 def generate(seed, n):
     rng = random.Random(seed * 7919 + 8)
     cases = []
     for i in range(n):
-        cases.append(one_case(rng, adversarial=(i % 5 == 4)))
+        if i % 10 == 3:
+            cases.append(open_options_case(rng))
+        elif i % 10 == 7:
+            cases.append(dir_utils_case(rng))
+        else:
+            cases.append(one_case(rng, adversarial=(i % 5 == 4)))
     return cases
 
 
